@@ -1142,7 +1142,9 @@ pub fn plan(prop: &str, tier: Tier, seeds: &[u64]) -> Vec<Sweep> {
     // COUNT thresholds: thousands of keys in one store (a merge pass over > 4096 entries, > 65 536
     // entries, > 256 files, every DashMap shard holding many keys)
     let bulk = |sweeps: &mut Vec<Sweep>, oracles: Oracles| {
-        let ns: Vec<u16> = if tier == Tier::Quick { vec![257, 4097, 10_000] } else { vec![255, 256, 257, 1000, 4095, 4096, 4097, 10_000, 40_000, 65_535] };
+        // the per-state oracles other than reads are quadratic in the number of entries: smaller counts there
+        let heavy = oracles.c19 || oracles.c12 || oracles.c13;
+        let ns: Vec<u16> = if heavy { if tier == Tier::Quick { vec![257, 2500] } else { vec![255, 256, 257, 1000, 4097] } } else if tier == Tier::Quick { vec![257, 4097, 10_000] } else { vec![255, 256, 257, 1000, 4095, 4096, 4097, 10_000, 40_000, 65_535] };
         let mut words = vec![];
         for &n in &ns {
             words.push(vec![Op::Fill(n, 1), Op::Merge, Op::Reopen, Op::Merge]);
@@ -1234,6 +1236,7 @@ pub fn plan(prop: &str, tier: Tier, seeds: &[u64]) -> Vec<Sweep> {
             deep("core", full.clone(), 4, 5, core_grid(seeds, &all_thr, &mfss), o, 0);
             after_merge(&mut sweeps, tier.pick(3, 4), o);
             scale(&mut sweeps, o);
+            bulk(&mut sweeps, o);
             sweeps.push(Sweep { name: "clock".into(), alphabet: full.clone(), depth: tier.pick(3, 4), cfgs: with_clocks(core_grid(&seeds[..1], &[Thr::All, Thr::Dead, Thr::Size27], &[0, MFS_BIG])), oracles: o, keys: main_keys.clone(), trailing_reopens: 0, preload: vec![], words: vec![] });
             // key and value SHAPES (empty, binary, 300-byte keys; empty, CR/LF/NUL, 9 000- and 70 000-byte values) through a merge
             sweeps.push(Sweep { name: "wide".into(), alphabet: wide_ops(true, false), depth: tier.pick(2, 3), cfgs: core_grid(&seeds[..1], &[Thr::All, Thr::Dead], &[0, MFS_BIG]), oracles: o, keys: wide_keys.clone(), trailing_reopens: 0, preload: vec![], words: vec![] });
@@ -1248,11 +1251,14 @@ pub fn plan(prop: &str, tier: Tier, seeds: &[u64]) -> Vec<Sweep> {
             }
             after_merge(&mut sweeps, tier.pick(3, 5), o);
             scale(&mut sweeps, o);
+            bulk(&mut sweeps, o);
             sweeps.push(Sweep { name: "wide".into(), alphabet: wide_ops(true, true), depth: tier.pick(2, 3), cfgs: core_grid(&seeds[..1], &[Thr::All, Thr::Dead], &[0, MFS_BIG]), oracles: o, keys: wide_keys.clone(), trailing_reopens: 0, preload: vec![], words: vec![] });
         }
         "C14" => {
             let o = Oracles { c14: true, reopen_stable: true, ..Default::default() };
-            deep("core", full.clone(), 4, 6, core_grid(seeds, &[Thr::All, Thr::Size27, Thr::Dead], &[0, 20, 60, MFS_BIG]), o, 1);
+            deep("core", full.clone(), 4, 6, core_grid(seeds, &[Thr::All, Thr::Size27, Thr::Dead], &[0, 20, 27, 60, MFS_BIG]), o, 1);
+            // long histories: ids past 9 / 10 and 99 / 100, the third and fourth merge, merges of many files
+            scale(&mut sweeps, o);
         }
         "C19" => {
             let o = Oracles { c19: true, ..Default::default() };
@@ -1264,6 +1270,7 @@ pub fn plan(prop: &str, tier: Tier, seeds: &[u64]) -> Vec<Sweep> {
             }
             after_merge(&mut sweeps, tier.pick(3, 5), o);
             scale(&mut sweeps, o);
+            bulk(&mut sweeps, o);
             sweeps.push(Sweep { name: "wide".into(), alphabet: wide_ops(true, true), depth: tier.pick(2, 3), cfgs: core_grid(&seeds[..1], &[Thr::All, Thr::Dead], &[0, MFS_BIG]), oracles: o, keys: wide_keys.clone(), trailing_reopens: 0, preload: vec![], words: vec![] });
         }
         _ => panic!("no E1 plan for {}", prop),
